@@ -101,6 +101,40 @@ Theorem C05_counters_fold : forall m pws, Forall (fun pw => pw <> []) pws ->
   exists rs, map (parse_c m) pws = map POk rs /\ Forall c_counters_ok rs.
 Proof. exact parse_c_counters_fold. Qed.
 
+(* ---- digit runs and word splits, per detector call on one unlabelled
+   section: the digit segment is the FIRST MAXIMAL digit run of the section
+   (nothing but non-digits before it, end of section or a non-digit after it)
+   and a section the detector declines has no digit left; the alpha detector
+   cuts the first maximal letter run exactly at the word lengths
+   multiword_detector.parse returned for its lower-casing (C05_sound_multiword
+   says when that is more than one word).
+   PARTIAL with respect to the statement "neighbouring tiles of a D tile are
+   not D" on the final section list: proved here per section (with
+   C05_tiling: A tiles are letters only, O tiles have no digit, and a letter
+   is never a digit), not as an adjacency statement about the final list;
+   full statement:  forall m pw r, parse_c m pw = POk r ->
+     forall a x y b, p_sections r = a ++ x :: y :: b -> isC 6 x = true -> isC 6 y = false. *)
+Theorem C05_sound_digit_partial : forall s p f, detect_digits c_isdigit s = DYes p f ->
+  exists l1 l2 l3, s = l1 ++ l2 ++ l3 /\ forallb (fun c => negb (c_isdigit c)) l1 = true /\
+    forallb c_isdigit l2 = true /\ l2 <> [] /\ stops c_isdigit l3 /\
+    p = osec l1 ++ [(l2, Some (LD (len l2)))] ++ osec l3 /\ f = l2.
+Proof. exact digit_run_maximal. Qed.
+Theorem C05_sound_digit_none_left : forall s, detect_digits c_isdigit s = DNo -> forallb (fun c => negb (c_isdigit c)) s = true.
+Proof. exact digit_none_left. Qed.
+Theorem C05_unicode_alpha_not_digit : forall c, c_isalpha c = true -> c_isdigit c = false.
+Proof. exact alpha_not_digit. Qed.
+Theorem C05_sound_alpha_split : forall m s p f,
+  detect_alpha c_isalpha c_isupper c_lower true (mwparse_c m) s = DYes p f ->
+  exists l1 l2 l3 pieces b, s = l1 ++ l2 ++ l3 /\ l2 <> [] /\
+    forallb (fun c => negb (c_isalpha c)) (map (lower1 c_lower) l1) = true /\
+    forallb c_isalpha (map (lower1 c_lower) l2) = true /\
+    stops c_isalpha (map (lower1 c_lower) l3) /\
+    mwparse_c m (map (lower1 c_lower) l2) = Some (b, map (map (lower1 c_lower)) pieces) /\
+    concat pieces = l2 /\ pieces <> [] /\
+    p = osec l1 ++ map (fun pc => (pc, Some (LA (len pc)))) pieces ++ osec l3 /\
+    f = (map (map (lower1 c_lower)) pieces, map (case_mask c_isupper) pieces).
+Proof. exact alpha_run_split. Qed.
+
 (* ---- why the repair was needed: the detectors as they were (searching
    section[0].lower(), slicing section[0]) on passwords with U+0130 *)
 Theorem C05_refuted_lower_0130_website :
